@@ -83,12 +83,45 @@ def check_typed(fx, rep, rule, impl):
         return ("adt", "StackTrace", "StackTrace", (("exception", ex), ("frames", frames), ("cause", cz)))
 
     loop_forms = {}
+    flat_forms = {}
+
+    def flat_map_form(fv):
+        """frames = trace.frames.iter().flat_map(|f| remap_frame(f).peekable().chain(<f.clone() iff nothing was remapped>)).collect()"""
+        if not (fv[0] == "call" and fv[1].endswith("Iterator::collect") and len(fv[2]) == 1):
+            return None
+        fm = fv[2][0]
+        frames_f = mk_field(tr, "frames")
+        if not (fm[0] == "call" and fm[1].endswith("Iterator::flat_map") and len(fm[2]) == 2 and fm[2][1][0] == "closure"
+                and fm[2][0] in (call("core::slice::iter", frames_f), call("std::iter::IntoIterator::into_iter", frames_f))):
+            return None
+        f = ("bound", 0)
+        try:
+            paths = sy.apply(fm[2][1], [f], S.St(), {"sp": "?"})
+        except S.Undecidable as e2:
+            return False, ["per-frame closure not evaluable: %s" % e2.msg]
+        pkd = call("std::iter::Iterator::peekable", call(S.short_path(rf), slf, f))
+        pk = fc.canon_atom(("is", ("peek", pkd), "Some"))[0]
+        kept = ("adt", "StackFrame", "StackFrame", tuple((fn, mk_field(f, fn)) for fn in ("class", "method", "line", "file", "parameters")))
+        okf, desc, seen_ = True, [], set()
+        for st2, (k2, v2) in paths:
+            has = fc.assignment(st2.conds).get(pk)
+            desc.append("%s -> %s" % (S.cstr(st2.conds), S.tstr(v2)[:160]))
+            effs = [e_ for e_ in st2.effects if e_[0] == "call"]
+            want = call("std::iter::Iterator::chain", pkd, NONE if has else some(kept))
+            okf = okf and has is not None and not effs and R1.canon_iter(v2) == want
+            seen_.add(has)
+        return okf and seen_ == {True, False}, desc
 
     def outcome(st, out):
         v = fc.rewrite(out[1], rw)
         if v[0] == "adt" and v[1] == "StackTrace":
             d = dict(v[3])
             fv = d.get("frames")
+            if fv is not None and fv[0] == "call" and fv[1].endswith("Iterator::collect"):
+                if fv not in flat_forms:
+                    flat_forms[fv] = flat_map_form(fv)
+                if flat_forms[fv] and flat_forms[fv][0]:
+                    d["frames"] = ("FRAMES", call("core::slice::iter", mk_field(tr, "frames")), call("std::vec::Vec::with_capacity", call("std::vec::Vec::len", mk_field(tr, "frames"))))
             if fv is not None and fv[0] == "loop":
                 # frames built by an explicit `for f in &trace.frames` loop instead of a fold
                 if fv not in loop_forms:
@@ -113,6 +146,11 @@ def check_typed(fx, rep, rule, impl):
                           found="[%s] when %s: %s = %s" % (impl, S.cstr(conds), fields[0], S.tstr(dio.get(fields[0])) if dio.get(fields[0]) else None),
                           expected="%s = %s" % (fields[0], S.tstr(dro.get(fields[0]))))
     # the fold closure: remapped frames if any, else the original frame; never nothing
+    if flat_forms and not folds and not loop_forms and all(flat_forms.values()):
+        for fv, (okl, desc_l) in flat_forms.items():
+            rep.check(rule, "%s/frames-fold/%s" % (rule, impl), okl, loc=F.short_file(b["sp"]), found=desc_l,
+                      expected="per frame (flat_map over trace.frames): all of remap_frame(f)'s frames, followed by the unchanged frame iff there were none")
+        return
     if loop_forms and not folds:
         for fv, (okl, desc_l) in loop_forms.items():
             rep.check(rule, "%s/frames-fold/%s" % (rule, impl), okl, loc=F.short_file(b["sp"]), found=desc_l,
@@ -286,6 +324,9 @@ def semantic_templates(fx, path):
                     pass
     for st, o in res:
         grab(st.effects)
+        # a try_for_each that is the function's value (receiver is a temporary iterator, not a place)
+        if o[1] and o[1][0] == "call":
+            grab([o[1]])
     for k_ in sy.loop_order:
         for st, o in sy.loops[k_]["paths"]:
             grab(st.effects)
@@ -352,10 +393,28 @@ def check_text_api(fx, rep, rule, impl):
     except S.Undecidable as e:
         rep.undecidable(rule, "%s/text/%s/shape" % (rule, impl), loc=F.loc(e.node) if isinstance(e.node, dict) else "", construct=e.msg)
         return
-    if len(sy.loop_order) != 1:
+    L = None
+    if len(sy.loop_order) == 0:
+        # `lines.try_for_each(|line| ..)?` instead of a `for` loop: one closure application per remaining line, the first Err ends
+        # the function (what `?` in a loop body does)
+        tfes = {e[:3] for st, o in res for e in st.effects if e[0] == "call" and e[1].endswith("Iterator::try_for_each") and len(e[2]) == 2
+                and e[2][0][0] == "place" and e[2][1][0] == "closure"}
+        if len({(e[1], e[2][0], e[2][1][1]) for e in tfes}) == 1:
+            tfe = sorted(tfes, key=repr)[0]
+            nxt = ("mcall", "std::iter::Iterator::next", (tfe[2][0],), 900)
+            some_st = S.St(conds=((("is", nxt, "Some"), True),))
+            try:
+                cps = sy.apply(tfe[2][1], [mk_payload(nxt, "Some", "0")], some_st, {"sp": "?"})
+            except S.Undecidable as e:
+                rep.undecidable(rule, "%s/text/%s/shape" % (rule, impl), loc=F.short_file(b["sp"]), construct="try_for_each closure: %s" % e.msg)
+                return
+            L = dict(paths=[(st2, (S.CONT, None)) for st2, o2 in cps] + [(S.St(conds=((("is", nxt, "Some"), False),)), (S.BRK, None))],
+                     entry=S.St(), pre=None, index=-1, node=None, synthetic=tfe)
+    if L is None and len(sy.loop_order) != 1:
         rep.undecidable(rule, "%s/text/%s/shape" % (rule, impl), loc=F.short_file(b["sp"]), construct="%d loops (expected one loop over the remaining lines)" % len(sy.loop_order))
         return
-    L = sy.loops[sy.loop_order[0]]
+    if L is None:
+        L = sy.loops[sy.loop_order[0]]
     slf = ("in", "self")
     PT, PF = S.short_path(pt[0]), S.short_path(pf[0])
     FT, FF, FC_ = (S.short_path(fmts[k][0]) for k in ("format_throwable", "format_frames", "format_cause"))
@@ -390,7 +449,7 @@ def check_text_api(fx, rep, rule, impl):
         return (name,) + tuple(args[1:])
 
     import readers as RD_
-    drv_ = RD_.driver_of_loop(L)
+    drv_ = RD_.driver_of_loop(L) if L.get("node") is not None else None
     enum_form = drv_ is not None and drv_[0] == "call" and drv_[1] == "std::iter::Iterator::enumerate" and len(drv_[2]) == 1 \
         and drv_[2][0][0] == "call" and drv_[2][0][1] == "core::str::lines"
     LINE = mk_field(R.ELEM, "1") if enum_form else R.ELEM
@@ -489,6 +548,8 @@ def check_text_api(fx, rep, rule, impl):
                 n_["fn"]["path"].startswith("std::iter::Iterator::") and n_["fn"]["path"].split("::")[-1] not in ("next",)]
     if enum_form:
         adaptors = [x for x in adaptors if x != "enumerate"]
+    if L.get("synthetic"):
+        adaptors = [x for x in adaptors if x != "try_for_each"]     # the consumer itself (checked above as the loop)
     rep.check(rule, "%s/text/%s/line-source" % (rule, impl), src is not None and not adaptors, loc=F.short_file(b["sp"]),
               found="lines() call: %s; iterator adaptors in the body: %s" % (bool(src), adaptors),
               expected="one `input.lines()` iterator, consumed by next() and a for loop, no adaptor (no skip/take/filter/rev)")
@@ -579,17 +640,29 @@ def format_frames_forms(fx, sy, res, line, it, it_name):
             good = len(w) == 1 and w[0][2][1] == VERB and not tfe and not any(e[0] == "loopsum" for e in st.effects)
             desc.append("no frames: %s" % [S.tstr(e)[:80] for e in w])
         elif has is True:
-            if tfe:
+            def closure_writes_indented(clo):
+                if clo[0] != "closure":
+                    return False
+                try:
+                    paths = sy.apply(clo, [("bound", 0)], S.St(), {"sp": "?"})
+                except S.Undecidable:
+                    return False
+                cw = [[e for e in st2.effects if e[0] == "call"] for st2, o2 in paths]
+                return len(paths) == 1 and len(cw[0]) == 1 and cw[0][0][1].endswith("write_fmt") and cw[0][0][2][1] == indented(("bound", 0)) \
+                    and paths[0][1][1] == ("mcall",) + tuple(cw[0][0][1:])
+            # form D: the first frame was taken with next(); `once(first).chain(rest).try_for_each(|f| indented(f))` is the value
+            chained = nx is not None and v[0] == "call" and v[1].endswith("Iterator::try_for_each") and len(v[2]) == 2 and \
+                v[2][0] in (call("std::iter::Iterator::chain", call("std::iter::once", mk_payload(nx, "Some", "0")), ("after", nx)),
+                            call("std::iter::Iterator::chain", call("std::iter::once", mk_payload(nx, "Some", "0")), ("after", nx, 0)))
+            if chained:
+                good = not w and not tfe and closure_writes_indented(v[2][1])
+                desc.append("frames: once(first).chain(rest).try_for_each(|f| indented(f)): %s" % good)
+                n_some += 1
+            elif tfe:
                 clo = tfe[0][2][1]
-                good = len(w) == 0 and len(tfe) == 1 and clo[0] == "closure"
-                if good:
-                    try:
-                        paths = sy.apply(clo, [("bound", 0)], S.St(), {"sp": "?"})
-                    except S.Undecidable:
-                        paths = []
-                    cw = [[e for e in st2.effects if e[0] == "call"] for st2, o2 in paths]
-                    good = len(paths) == 1 and len(cw[0]) == 1 and cw[0][0][1].endswith("write_fmt") and cw[0][0][2][1] == indented(("bound", 0)) \
-                        and paths[0][1][1] == ("mcall",) + tuple(cw[0][0][1:])
+                good = len(w) == 0 and len(tfe) == 1 and closure_writes_indented(clo) and \
+                    tfe[0][2][0] in (("place", it_name, ()), it, call("std::iter::Iterator::peekable", it)) or \
+                    (len(w) == 0 and len(tfe) == 1 and closure_writes_indented(clo) and tfe[0][2][0][0] == "place")
                 desc.append("frames: try_for_each(|f| indented(f)): %s" % good)
                 n_some += 1
             else:
